@@ -379,6 +379,24 @@ TRUSTED_BASE = [
 ]
 
 
+def own_modules(root: str) -> list[str]:
+    """the project's own modules (OutrankModel.*) transitively imported by `root` – what leanchecker re-checks"""
+    seen, todo = [], [root]
+    while todo:
+        m = todo.pop()
+        if m in seen:
+            continue
+        path = os.path.join(LEAN_DIR, *m.split('.')) + '.lean'
+        if not os.path.exists(path):
+            continue
+        seen.append(m)
+        for ln in open(path, encoding='utf-8'):
+            mm = re.match(r'\s*import\s+(OutrankModel\.\S+)', ln)
+            if mm:
+                todo.append(mm.group(1))
+    return sorted(seen)
+
+
 def prepare(prop: str, tier: str, extra_targets=()):
     """steps 2+3: build the property's theorems and the driver; audit axioms. Returns build_info.
     Raises InfraError when the failure is /verif's own (not attributable to a regenerated Gen file)."""
@@ -398,7 +416,9 @@ def prepare(prop: str, tier: str, extra_targets=()):
     if bad:
         raise InfraError(f'axiom audit failed for {bad}: {raw[-1500:]}')
     if tier == 'thorough':
-        rc, o = sh(['lake', 'env', 'leanchecker', f'OutrankModel.Props.{prop}'], cwd=LEAN_DIR, timeout=3600)
+        mods = own_modules(f'OutrankModel.Props.{prop}')
+        info['leanchecker_modules'] = mods
+        rc, o = sh(['lake', 'env', 'leanchecker'] + mods, cwd=LEAN_DIR, timeout=3600)
         info['leanchecker'] = 'ok' if rc == 0 else ('failed: ' + o[-500:])
         if rc != 0:
             raise InfraError('leanchecker failed: ' + o[-800:])
